@@ -957,6 +957,43 @@ def handlerDisc (fn : String) : Option Handler :=
         | none => "skip bad-args"
         | some (he, br, n) => if n < 1 then "skip subdivision-count-outside-the-domain" else
           withOut o poutline3 fun (pts, es) => outlineJudge (surfCuboid3 he br) (muSteps [4 * (n : Rat)]) pts es }
+  | "ball_trimesh_e" => some {
+      model := fun _ => some "-"
+      oracle := fun a o => match run (do let r ← pq; let nt ← pnat; let np ← pnat; pure (r, nt, np)) a with
+        | none => "skip bad-args"
+        | some (r, nt, np) => if nt < 3 || np < 2 then "skip subdivision-count-outside-the-domain" else
+          withOut o pmesh3 fun (pts, tris) =>
+            let a1 : Rat := 31416 / 10000 / nt; let a2 : Rat := 31416 / 10000 / (2 * np)
+            meshJudge (surfBall3 r) (1 - (sqr a1 + sqr a2) / 2) pts tris }
+  | "cyl_trimesh_e" => some {
+      model := fun _ => some "-"
+      oracle := fun a o => match run (do let hh ← pq; let r ← pq; let n ← pnat; pure (hh, r, n)) a with
+        | none => "skip bad-args"
+        | some (hh, r, n) => if n < 3 then "skip subdivision-count-outside-the-domain" else
+          withOut o pmesh3 fun (pts, tris) => meshJudge (surfCyl hh r 0) (muSteps [(n : Rat)]) pts tris }
+  | "cone_trimesh_e" => some {
+      model := fun _ => some "-"
+      oracle := fun a o => match run (do let hh ← pq; let r ← pq; let n ← pnat; pure (hh, r, n)) a with
+        | none => "skip bad-args"
+        | some (hh, r, n) => if n < 3 then "skip subdivision-count-outside-the-domain" else
+          withOut o pmesh3 fun (pts, tris) => meshJudge (surfCone hh r 0) (muSteps [(n : Rat)]) pts tris }
+  | "cuboid_trimesh_e" => some {
+      model := fun _ => some "-"
+      oracle := fun a o => match run pq3 a with
+        | none => "skip bad-args"
+        | some he => withOut o pmesh3 fun (pts, tris) => meshJudge (surfCuboid3 he 0) 1 pts tris }
+  | "points_scaled3" => some {
+      model := fun a => run (do
+        let k ← pnat; let pts ← pmany pv3 k; let s ← pv3
+        let r := scalePoints3 pts s
+        pure s!"{fpts3 r} {fpts3 r}") a
+      oracle := fun a o => match run (do let k ← pnat; let pts ← pmany pq3 k; let s ← pq3; pure (pts, s)) a with
+        | none => "skip bad-args"
+        | some (pts, s) =>
+          withOut o (do let k ← pnat; let p1 ← pmany pq3 k; let k2 ← pnat; let p2 ← pmany pq3 k2; pend; pure (p1, p2)) fun (p1, p2) =>
+            if p1.length != pts.length || p2.length != pts.length then "fail vertex-count-changed" else
+            if (pts.zip p1).all (fun (p, w) => near3 w (p.cmul s)) && (pts.zip p2).all (fun (p, w) => near3 w (p.cmul s)) then "pass"
+            else "fail vertices-not-scaled" }
   | "poly_trimesh" => some {
       model := fun _ => some "-"
       oracle := fun a o => match run (do let k ← pnat; let pts ← pmany pq3 k; pure pts) a with
